@@ -17,6 +17,7 @@
 mod classes;
 mod felts;
 mod items;
+mod templates;
 
 use std::collections::BTreeMap;
 use std::io::{BufRead, BufReader, Write};
@@ -145,7 +146,11 @@ fn parent_main(corpus_dir: &str, out_dir: &str, tier: &str) {
     std::fs::create_dir_all(&jobs_dir).unwrap();
     let seed = vcommon::Rng::from_env().0;
     let thorough = tier == "thorough";
-    let jobs = items::plan_jobs(corpus_dir, thorough, seed);
+    let mut jobs = items::plan_jobs(corpus_dir, &jobs_dir, thorough, seed);
+    // H14_ONLY=tpl,wit : run only these job kinds (debugging aid)
+    if let Ok(only) = std::env::var("H14_ONLY") {
+        jobs.retain(|j| only.split(',').any(|k| j["kind"].as_str() == Some(k)));
+    }
     let n_jobs = jobs.len();
     let queue: Arc<Mutex<Vec<JobState>>> = Arc::new(Mutex::new(
         jobs.into_iter().rev().map(|job| JobState { job, start: 0, confirm: false }).collect(),
@@ -345,6 +350,10 @@ fn parent_main(corpus_dir: &str, out_dir: &str, tier: &str) {
         "stages": a.stages,
         "mutation_classes": a.mut_classes,
         "items_with_panic": a.panic_items,
+        "boundary_templates": a.by_kind.get("tpl").copied().unwrap_or(0),
+        "boundary_templates_applicable": a.by_kind.get("tpl").copied().unwrap_or(0)
+            - a.stages.get("tpl:not-applicable").copied().unwrap_or(0),
+        "boundary_template_sites": templates::SITES,
         "distinct_inputs": a.distinct.len(),
         "distinct_nontrivial": a.nontrivial.len(),
         "finding_sites": a.findings.len(),
